@@ -95,7 +95,7 @@ def run(ctx):
     nbad = 0
     for rec in mine:
         h = rec["h"]
-        ctx.case(tuple(tuple(e[:4]) for e in h), inserts(h))
+        ctx.case(G.digest(h), inserts(h))
         _, _, _, singles = G.parse_history(h)
         exp = G.expected_events(h, singles)
         obs, env = G.replay_history(rec)
@@ -133,7 +133,7 @@ def run(ctx):
         hosty = {e["a"] for e in t["ev"] if e["k"] == "iret" and e["op"] == "yield"}
         nontriv = any(e["k"] == "proc" and e["op"] != "id" for e in t["ev"]) or \
             any(e["k"] == "out" and e["op"] == "yield" and e["a"] not in hosty for e in t["ev"])
-        ctx.case((str(m), tuple((e["op"], e["a"]) for e in t["ev"] if e["k"] == "call")), nontriv)
+        ctx.case(G.digest((m, [(e["op"], e["a"]) for e in t["ev"] if e["k"] == "call"])), nontriv)
     v, tags = report_traces(ctx, traces, meta, "C21t")
     for idx, (bad, stale) in tags.items():
         evs = [(e["k"], e["g"], e["op"], e["a"]) for e in traces[idx]["ev"]]
@@ -150,3 +150,7 @@ def run(ctx):
         "every clause holds explains the trace (head/tail split is inferred)",
         "when an inserted message is itself expanded (code as found) the clauses are not evaluated for the enclosing insertion",
     ]
+
+
+def replay(ctx, obj):
+    return G.replay_file(ctx, obj)
